@@ -215,6 +215,84 @@ def takeMsg (outFilters : List (Outcome Bool)) : Outcome (Option Bool) :=
     | .ret b => .ret (some b)
     | .raise e => .raise e
 
+/-! ### the per-message preamble of `feedMsg`: `_tagMsg` → `_setMsgChannel` → `Irc.isChannel`,
+which reads what `IrcState.do005` stored (src/irclib.py:841-852, 1144-1155, ircutils.py:147-155).
+Python values are dynamically typed: a token without `=` is stored as `None`. -/
+
+inductive Val where
+  | none                       -- `None`
+  | str (s : Str)
+  | int (n : Int)
+deriving DecidableEq, Repr
+
+/-- `state.supported` (an `InsensitivePreservingDict`: keys compared lower-cased) -/
+abbrev Supported := List (Str × Val)
+
+def supSet (d : Supported) (k : Str) (v : Val) : Supported :=
+  match d with
+  | [] => [(k, v)]
+  | (k', v') :: rest => if k' = k then (k, v) :: rest else (k', v') :: supSet rest k v
+
+def supGet : Supported → Str → Option Val
+  | [], _ => none
+  | (k', v') :: rest, k => if k' = k then some v' else supGet rest k
+
+/-- one argument of a 005 line; `intOf` is Python's `int()` (`none` = `ValueError`, which do005
+catches: nothing is stored).  Only the two tokens `Irc.isChannel` reads are tracked precisely; any
+other token is stored as a string / None under its own name. -/
+def do005Token (intOf : Str → Option Int) (d : Supported) (arg : Str) : Supported :=
+  match split1 '=' arg with
+  | some (name, value) =>
+    if asciiLower name = "channellen".toList then
+      (match intOf value with
+       | some n => supSet d (asciiLower name) (.int n)
+       | none => d)
+    else supSet d (asciiLower name) (.str value)
+  | none => supSet d (asciiLower arg) .none
+
+def do005 (intOf : Str → Option Int) (d : Supported) (tokens : List Str) : Supported :=
+  tokens.foldl (do005Token intOf) d
+
+/-- `c in v` -/
+def pyIn (c : Char) : Val → Except String Bool
+  | .str s => .ok (s.contains c)
+  | _ => .error "TypeError"
+
+/-- `n <= v` -/
+def pyLe (n : Nat) : Val → Except String Bool
+  | .int k => .ok (decide ((n : Int) ≤ k))
+  | _ => .error "TypeError"
+
+/-- `ircutils.isChannel(s, chantypes, channellen)` (truthiness of the `and` chain) -/
+def utilsIsChannel (s : Str) (chantypes channellen : Val) : Except String Bool :=
+  match s with
+  | [] => .ok false
+  | c :: _ =>
+    if s.contains ',' || s.contains (Char.ofNat 7) then .ok false
+    else match pyIn c chantypes with
+      | .error e => .error e
+      | .ok false => .ok false
+      | .ok true =>
+        match pyLe s.length channellen with
+        | .error e => .error e
+        | .ok false => .ok false
+        | .ok true => .ok (splitWs s == [s])
+
+/-- the `chantypes` / `channellen` keyword arguments `Irc.isChannel` passes since fix 8cfa9e2:
+a stored `None` does not override the default -/
+def ctOf (d : Supported) : Val :=
+  match supGet d "chantypes".toList with
+  | some v => if v = Val.none then Val.str "#&!".toList else v
+  | none => Val.str "#&!".toList
+
+def clOf (d : Supported) : Val :=
+  match supGet d "channellen".toList with
+  | some v => if v = Val.none then Val.int 50 else v
+  | none => Val.int 50
+
+/-- `Irc.isChannel(s)` -/
+def ircIsChannel (d : Supported) (s : Str) : Except String Bool := utilsIsChannel s (ctOf d) (clOf d)
+
 /-! ### instantiating the driver model of C11 -/
 
 /-- an Irc object as far as the driver loop is concerned: what it queues, and what exception (if
